@@ -244,7 +244,8 @@ def run_native_group(prop, grp, tier, obligations, undecided, failures, checker_
     ws = Workspace(prop + "-native")
     try:
         weave_units(ws, grp["units"])
-        sr = vlib.native_search(ws, grp["crate"], grp["test"], features=grp.get("features"), targets=(), seed=seed)
+        sr = vlib.native_search(ws, grp["crate"], grp["test"], features=grp.get("features"), targets=(), seed=seed,
+                                target_sel=grp.get("target_sel", ("--lib",)), release=grp.get("release", False))
         checker_cmds.append(sr["cmd"])
         comp = "bounded: " + grp["bound"]
         if not sr["ran"]:
@@ -258,7 +259,8 @@ def run_native_group(prop, grp, tier, obligations, undecided, failures, checker_
             obligations.append({"name": n, "engine": "native execution of the real code", "result": "failed" if n in bad else "discharged",
                                 "completeness": comp, "solver_s": round(sr["wall_s"] / max(1, len(grp["obligations"])), 3)})
         if bad:
-            pair = {"kind": "search", "crate": grp["crate"], "units": grp["units"], "features": grp.get("features"), "test": grp["test"]}
+            pair = {"kind": "search", "crate": grp["crate"], "units": grp["units"], "features": grp.get("features"), "test": grp["test"],
+                    "target_sel": list(grp.get("target_sel", ("--lib",))), "release": grp.get("release", False)}
             failures.append({"prop": prop, "group": dict(grp, kind="native", pair=pair), "harness": {"name": grp["test"], "replayable": True},
                              "failed": bad, "obligations": bad, "native": {"found": sr["found"]}, "ws": "done",
                              "search": {"pair": pair, "input": sr["found"][bad[0]], "found": sr["found"], "evaluations": sr["evaluations"]},
@@ -553,7 +555,8 @@ def replay(path):
         try:
             weave_units(ws, pair["units"])
             sr = vlib.native_search(ws, pair["crate"], pair["test"], features=pair.get("features"),
-                                    replay_input=doc["search"]["input"])
+                                    replay_input=doc["search"]["input"], target_sel=pair.get("target_sel", ("--lib",)),
+                                    release=pair.get("release", False))
             log(sr["output"][-2500:])
             if not sr["ran"]:
                 log("replay could not be executed")
@@ -605,31 +608,43 @@ def replay(path):
 
 
 def warm():
-    """Pre-build the dependency graph of each crate under Kani so that the checks start fast."""
-    rc = 0
-    for prop, spec in registry.PROPS.items():
-        pass
+    """Pre-build the dependency graph of each crate (Kani and native) so that the checks start fast.
+    Purely a cache: everything is rebuilt on demand if it is missing."""
     seen = set()
     for prop, spec in registry.PROPS.items():
         for grp in spec["groups"]:
-            if grp["kind"] != "kani" or grp["crate"] in seen:
-                continue
-            seen.add(grp["crate"])
-            ws = Workspace("warm")
-            try:
-                weave_units(ws, grp["units"])
-                unit0 = registry.UNITS[grp["units"][0]]
-                with vlib.TargetLock("kani-" + grp["crate"]) as target:
-                    cmd = ["cargo", "kani", "-p", grp["crate"]] + vlib.KANI_FLAGS + ["--only-codegen", "--target-dir", target]
-                    if unit0.get("features"):
-                        cmd += ["--features", unit0["features"]]
-                    r, out, to, secs = vlib.run(cmd, cwd=ws.ws, timeout=1800)
-                log(f"warm {grp['crate']}: rc={r} {secs:.0f}s")
-            except Undecided as u:
-                log(f"warm {grp['crate']}: skipped ({u})")
-            finally:
-                ws.cleanup()
-    return rc
+            if grp["kind"] == "kani" and grp["crate"] not in seen:
+                seen.add(grp["crate"])
+                ws = Workspace("warm")
+                try:
+                    weave_units(ws, grp["units"])
+                    feats = next((registry.UNITS[u].get("features") for u in grp["units"] if registry.UNITS[u].get("crate") == grp["crate"]), None)
+                    with vlib.TargetLock("kani-" + grp["crate"]) as target:
+                        cmd = ["cargo", "kani", "-p", grp["crate"]] + vlib.KANI_FLAGS + ["--only-codegen", "--target-dir", target]
+                        if feats:
+                            cmd += ["--features", feats]
+                        r, out, to, secs = vlib.run(cmd, cwd=ws.ws, timeout=1800)
+                    log(f"warm kani {grp['crate']}: rc={r} {secs:.0f}s")
+                except Undecided as u:
+                    log(f"warm kani {grp['crate']}: skipped ({u})")
+                finally:
+                    ws.cleanup()
+            if grp["kind"] == "native" and ("native", grp["crate"]) not in seen:
+                seen.add(("native", grp["crate"]))
+                ws = Workspace("warm")
+                try:
+                    weave_units(ws, grp["units"])
+                    cmd = ["cargo", "test", "--offline", "-p", grp["crate"], "--lib", "--no-run"]
+                    if grp.get("features"):
+                        cmd += ["--features", grp["features"]]
+                    with vlib.TargetLock("native-" + grp["crate"]) as target:
+                        r, out, to, secs = vlib.run(cmd, cwd=ws.ws, timeout=1800, env={"RUSTFLAGS": "--cfg verif_search", "CARGO_TARGET_DIR": target})
+                    log(f"warm native {grp['crate']}: rc={r} {secs:.0f}s")
+                except Undecided as u:
+                    log(f"warm native {grp['crate']}: skipped ({u})")
+                finally:
+                    ws.cleanup()
+    return 0
 
 
 def main():
